@@ -186,6 +186,29 @@ def run(tier, seed, drv):
                         if rep is None or sorted(pyrep["stopped"]) != rep["stopped"] or pyrep["errored"] != rep["errored"]:
                             res.diverge(f"fail-stop model driver/python rendering differ: {rep} vs {pyrep}", case)
                         analyse(s2, run_, target, n, hook, res, case, rep=dict(pyrep, source=(rep or {}).get("source")))
+    # late starts: the failing component comes up after the scheduler's first Input (replayed on
+    # subscription); everything must still be stopped and every task must complete
+    from sim import run_scenario
+    for ci, scn in enumerate(configs(rng, "quick")):
+        tops = [c["name"] for c in scn["components"]]
+        for target in [d["name"] for d in S.devices(scn)]:
+            for delays in ({t: 2 for t in tops}, {"": 3}, {tops[0]: 3}):
+                for hook in ("device", "adapter"):
+                    s2 = dict(copy.deepcopy(scn), start_delays=delays, n_ticks=50, max_steps=6000)
+                    for d in S.devices(s2):
+                        if d["name"] == target:
+                            d["beh"]["fail_at" if hook == "device" else "adapter_fail_at"] = 0
+                    run_ = run_scenario(s2, bus="sync", stop_when=lambda trace, info: False)
+                    case = {"scenario": s2, "bus": "sync", "target": target, "n": 0, "hook": hook, "late_start": True}
+                    failed = any(e["msg"]["m"] == "ComponentException" for e in run_["trace"].of("produce"))
+                    res.case(f"late:{ci}:{target}:{sorted(delays.items())}:{hook}", nontrivial=failed)
+                    res.count("late-start")
+                    if not failed:
+                        continue
+                    pend = [t for t in run_["info"].get("tasks_done", []) if not t[1]]
+                    if run_["info"].get("stop") != "tasks-done" or pend:
+                        res.violate(V("run-did-not-return", f"after {target} failed in the initial tick with start delays {delays} ({hook}) these tasks never completed: {[t[0] for t in pend]} (stop reason {run_['info'].get('stop')})",
+                                      site="late-start", hook=hook, depth=S.depth_map(scn).get(target)), case)
     res.rule = ("3 configurations (flat diamond; system with two inner devices between source and sink; depth-2 nesting with exposed chain) [+ generated "
                 "nestings in the thorough tier]; every device x n-th update (0..2 / 0..3) x {Device.update raises, adapter after_update raises} x "
                 "{synchronous bus, seeded delaying bus}; the simulation is run through the real TickitSimulation.run() under the virtual clock with a "
@@ -196,6 +219,12 @@ def run(tier, seed, drv):
 def replay(payload, drv):
     c = payload["case"]
     res = Result()
+    if c.get("late_start"):
+        from sim import run_scenario
+        run_ = run_scenario(c["scenario"], bus="sync", stop_when=lambda trace, info: False)
+        pend = [t for t in run_["info"].get("tasks_done", []) if not t[1]]
+        return {"stop": run_["info"].get("stop"), "pending": pend,
+                "violations": [V("run-did-not-return", str(pend))] if (pend or run_["info"].get("stop") != "tasks-done") else []}
     run_ = run_with_simulation(c["scenario"], c.get("bus", "sync"), c.get("held_seed", 0))
     analyse(c["scenario"], run_, c["target"], c["n"], c["hook"], res, c)
     return {"violations": [v["record"] for v in res.violations], "divergences": res.divergences[:3]}
